@@ -181,5 +181,72 @@ impl<T: Elem + SatisfyTraits<Tr>, M: MX, Tr: TrX + ?Sized> World<T, M, Tr> {
     }
 }
 
+impl<T: Elem + SatisfyTraits<Tr>, M: MX, Tr: TrX + ?Sized> World<T, M, Tr> {
+    /// C03: three vectors A, B, C exchanging elements inside one operation.
+    /// variant 0: A.splice(a..b, B.drain(0..rn)), items yielded per `pat` are pushed into C, the rest dropped with the iterator
+    /// variant 1: like 0 but the yielded items are inserted at the front of C after an in-place mutation
+    /// variant 2: C.push(A.remove(a)) then B.insert(0, C.pop()) then A.push(B.swap_remove(rn)) (a chain of moves)
+    /// variant 3 (cloneable): C gets lazy clones of every element of A while B.drain(..rn) is spliced into A afterwards
+    pub fn do_three(&mut self, variant: u8, a0: usize, b0: usize, rn: usize, pat: Pat, out: &mut Out) {
+        let len = self.ma.len();
+        if !(a0 <= b0 && b0 <= len) || rn > crate::exec::B_LEN { out.outcome.push_str("n/a"); return; }
+        if !M::RESIZABLE && len - (b0 - a0) + rn > self.a.capacity() { out.outcome.push_str("n/a"); return; }
+        if variant == 2 && (len == 0 || a0 >= len || rn >= crate::exec::B_LEN || (!M::RESIZABLE && len > self.a.capacity())) { out.outcome.push_str("n/a"); return; }
+        if variant == 3 && !Tr::CLONEABLE { out.outcome.push_str("n/a"); return; }
+        let World { a, b, ma, mb, .. } = self;
+        let vb = b.as_mut().unwrap();
+        let mut c: AnyVec<Tr, M::Aux> = elem::lib(|| if <M::Aux as MX>::SIZEABLE { <M::Aux as MX>::with_capacity::<T, Tr>(16) } else { AnyVec::<Tr, M::Aux>::new_in::<T>(<M::Aux as MX>::make()) });
+        let mut mc: Vec<Mv> = Vec::with_capacity(16);
+        let n = pat.n as usize;
+        let r = guarded(|| match variant {
+            0 | 1 => {
+                let repl = vb.drain(0..rn);
+                let mut d = a.splice(a0..b0, repl);
+                for i in 0..n {
+                    let e = if pat.back(i) { d.next_back() } else { d.next() };
+                    if let Some(mut e) = e {
+                        if variant == 1 { { let t = e.downcast_mut::<T>().unwrap(); let _w = elem::WindowOff::new(); t.retag(); } c.insert(0, e); } else { c.push(e); }
+                    }
+                }
+                drop(d);
+            }
+            2 => { c.push(a.remove(a0)); vb.insert(0, c.pop().unwrap()); a.push(vb.swap_remove(rn + 1)); }
+            _ => {
+                for e in a.iter() { Tr::lz_element(&*e, 1, &mut c, PushC); }
+                let d = a.splice(a0..b0, vb.drain(0..rn));
+                drop(d);
+            }
+        });
+        match r {
+            Err(Caught::Injected) => { out.faulted = true; }
+            Err(Caught::Panic(m)) => { out.fail(Class::Vec, "unexpected-panic", format!("three-vector operation panicked: {m}")); out.faulted = true; }
+            Ok(()) => {
+                // model
+                match variant {
+                    0 | 1 => {
+                        let repl: Vec<Mv> = mb.drain(0..rn).collect();
+                        let mut removed: std::collections::VecDeque<Mv> = ma.splice(a0..b0, repl).collect();
+                        for i in 0..n { let x = if pat.back(i) { removed.pop_back() } else { removed.pop_front() }; if let Some(x) = x { if variant == 1 { mc.insert(0, Mv::CloneOf(u16::MAX)); let _ = x; } else { mc.push(x); } } }
+                    }
+                    2 => { let x = ma.remove(a0); mb.insert(0, x); let y = mb.swap_remove(rn + 1); ma.push(y); }
+                    _ => { for m in ma.iter() { mc.push(Mv::CloneOf(match m { Mv::Id(i) => *i, Mv::CloneOf(p) => *p })); } let repl: Vec<Mv> = mb.drain(0..rn).collect(); ma.splice(a0..b0, repl); }
+                }
+                let sc = snap::<T, Tr, M::Aux>(&c);
+                let ok = if variant == 1 { sc.len() == mc.len() && sc.iter().all(|x| x.1) } else { crate::exec::snap_matches::<T>(&sc, &mc) };
+                if !ok { out.fail(Class::Vec, "third-seq-mismatch", format!("third vector holds {:?}, model {:?}", sc.iter().map(|x| x.0).collect::<Vec<_>>(), mc)); }
+                // no element in two of the three vectors
+                if T::SIZE != 0 {
+                    let sa = snap::<T, Tr, M>(a); let sb = snap::<T, Tr, M::Aux>(vb);
+                    let mut seen = std::collections::HashSet::new();
+                    for (id, _) in sa.iter().chain(sb.iter()).chain(sc.iter()) { if !seen.insert(*id) { out.fail(Class::Own, "duplicate", format!("id {id} is visible in two of the three vectors")); } }
+                    for (id, okc) in sc.iter() { if !*okc || (T::HAS_DROP && elem::state_of(*id) != elem::IdState::Live) { out.fail(Class::Own, "dead-visible", format!("third vector shows id {id} which is not alive / intact")); } }
+                }
+                out.outcome.push_str("ok");
+            }
+        }
+        let _ = guarded(move || drop(c));
+    }
+}
+
 #[allow(dead_code)]
 fn _unused<Tr: ?Sized + TrX, M: MX>(_: &AnyVec<Tr, M>) where PushC: Consumer<Tr, M> {}
